@@ -7,7 +7,7 @@ usage: tools/evalseed.py <seed dir> [--checks C01,C02] [--thorough C01] [--no-co
 import json, os, shutil, subprocess, sys, time
 
 ROOT = os.path.dirname(os.path.dirname(os.path.abspath(__file__)))
-ENV = dict(os.environ, GOFLAGS="-mod=mod", GOPROXY="off", GOSUMDB="off", GOTOOLCHAIN="local")
+ENV = dict(os.environ, GOFLAGS="-mod=mod", GOPROXY="off", GOSUMDB="off", GOTOOLCHAIN="local", VERIF_EVIDENCE_DIR="/tmp/verif-mutant-evidence")
 
 def sh(cmd, cwd, timeout=1800, env=ENV):
     try:
